@@ -358,8 +358,16 @@ class Unit:
             for cl in c.spec.clauses():
                 self.report['clauses'].append({'fn': disp, 'vspec': os.path.relpath(c.spec.file, self.verif), 'first': cl['first'], 'last': cl['last'],
                                                'text': cl['text'], 'tags': cl['tags'], 'section': cl['section'], 'mode': mode})
+        fn_tags = set(c.tags) if c else set()
+        if in_trait_impl:
+            # a method of `impl Trait for T` also discharges the clauses declared on Trait::method
+            mo_t = re.match(r'impl(?:<[^>]*>)?\s+([A-Za-z_][A-Za-z0-9_]*)', parent.name)
+            if mo_t:
+                for fs2 in self.contracts.values():
+                    c2 = fs2.fns.get(mo_t.group(1) + '::' + item.name)
+                    if c2: fn_tags |= set(c2.tags)
         info = {'fn': disp, 'file': repo_file, 'lines': list(item.lines()), 'sha256': sha256(item.full_text),
-                'mode': mode, 'contract': bool(has_spec), 'tags': sorted(c.tags) if c else []}
+                'mode': mode, 'contract': bool(has_spec), 'tags': sorted(fn_tags)}
         if mode == 'decl':
             G(';') if not has_spec else G(';\n')
             em.emit('\n', ('gen', None, 0))
@@ -608,6 +616,7 @@ class Unit:
                 if key in verify: mode = 'verify'
                 elif key in stub: mode = 'stub'
                 elif '**' in verify: mode = 'verify'
+                elif '**' in stub: mode = 'stub'
                 else: continue
                 found.add(key)
                 self._splice_fn(em, it, None, repo_file, fspec, mode, file_rewrites, world_callees)
@@ -620,6 +629,7 @@ class Unit:
                         if key in verify or (pn + '::*') in verify: chosen.append((ch, 'verify')); found.add(key); found.add(pn + '::*')
                         elif key in stub or (pn + '::*') in stub: chosen.append((ch, 'stub')); found.add(key); found.add(pn + '::*')
                         elif '**' in verify: chosen.append((ch, 'verify'))
+                        elif '**' in stub: chosen.append((ch, 'stub'))
                     elif ch.kind in ('type', 'const'):
                         chosen.append((ch, 'plain'))
                 if not any(md != 'plain' for _, md in chosen):
@@ -702,7 +712,7 @@ class Unit:
                 node = node.setdefault('mods', {}).setdefault(seg, {})
             node.setdefault('files', []).append(repo_file)
         mod_prelude = self.cfg.get('module_prelude',
-            '#[allow(unused_imports)] use vstd::prelude::*;\n#[allow(unused_imports)] use crate::{pnet, log};\n#[allow(unused_imports)] use crate::shim::*;\n#[allow(unused_imports)] use crate::{World, Ev, Layer, Verb};\n#[allow(unused_imports)] use crate::pnet::cksum::*;\n#[allow(unused_imports)] use crate::pnet::pspec::*;\n#[allow(unused_imports)] use crate::pnet_lemmas::*;\n#[allow(unused_imports)] use crate::pnet::util::{mac_bytes, mac_at};\n#[allow(unused_imports)] use crate::client::*;\n#[allow(unused_imports)] use crate::evspec::*;\n#[allow(unused_imports)] use crate::appspec::*;\n#[allow(unused_imports)] use crate::cfgspec::*;\n#[allow(unused_imports)] use crate::tcpspec::*;\n#[allow(unused_imports)] use crate::tcbspec::*;\nbroadcast use {crate::evspec::group_events, crate::shim::group_ip_axioms, crate::shim::group_be_subrange, crate::shim::axiom_ipaddr_key_model, crate::pnet::util::axiom_macaddr_key_model, vstd::std_specs::hash::group_hash_axioms, crate::pnet_lemmas::group_pnet_fields, crate::pnet::cksum::axiom_pseudo6_swap};\n')
+            '#[allow(unused_imports)] use vstd::prelude::*;\n#[allow(unused_imports)] use crate::{pnet, log};\n#[allow(unused_imports)] use crate::shim::*;\n#[allow(unused_imports)] use crate::{World, Ev, Layer, Verb};\n#[allow(unused_imports)] use crate::pnet::cksum::*;\n#[allow(unused_imports)] use crate::pnet::pspec::*;\n#[allow(unused_imports)] use crate::pnet_lemmas::*;\n#[allow(unused_imports)] use crate::pnet::util::{mac_bytes, mac_at};\n#[allow(unused_imports)] use crate::client::*;\n#[allow(unused_imports)] use crate::evspec::*;\n#[allow(unused_imports)] use crate::appspec::*;\n#[allow(unused_imports)] use crate::cfgspec::*;\n#[allow(unused_imports)] use crate::tcpspec::*;\n#[allow(unused_imports)] use crate::tcbspec::*;\nbroadcast use {crate::evspec::group_events, crate::shim::group_ip_axioms, crate::shim::group_be_subrange, crate::shim::axiom_ipaddr_key_model, crate::pnet::util::axiom_macaddr_key_model, vstd::std_specs::hash::group_hash_axioms, crate::pnet_lemmas::group_pnet_fields, crate::pnet::cksum::axiom_pseudo6_swap, crate::shim::lemma_le8_len};\n')
         def emit_node(node, depth, path=()):
             for f in node.get('files', []):
                 em.emit('// ---- extracted from %s\n' % f, ('gen', None, 0))
